@@ -8,37 +8,38 @@
      (B) which state feeds generated names and whether it is per conversion or process wide;
      (C) the memo table of lowering_dispatch._lower_accepts_params.
 
-   Set-iteration sites of /repo/jax2onnx/converter/ir_optimizations.py (the harness re-derives this list
-   from the AST on every run and fails on a site that is not listed here):
+   Set-iteration sites of /repo/jax2onnx/converter/ir_optimizations.py (line numbers as of /repo commit
+   aca2665; the harness identifies a site by (file, function, variable), re-derives the list from the AST on
+   every run and fails on a site that is not listed here):
 
-   S1  remove_redundant_transpose_add_forests_ir :1280  for out_transpose in output_transposes:
+   S1  remove_redundant_transpose_add_forests_ir :1284  for out_transpose in output_transposes:
          replace_all_uses_with(t_out, t_in)                       model site_rauw            PROVED
-   S2  ... :1288  graph.remove(list(output_transposes))           model remove_producers     PROVED
-   S3  ... :1293  for in_transpose in input_transposes: reads the graph only, appends to the list
+   S2  ... :1292  graph.remove(list(output_transposes))           model remove_producers     PROVED
+   S3  ... :1297  for in_transpose in input_transposes: reads the graph only, appends to the list
          removable_inputs, then graph.remove(removable_inputs)    model site_collect_remove  PROVED
-   S4  remove_redundant_transpose_pairs_ir :1474  graph.remove(list(to_remove))
+   S4  remove_redundant_transpose_pairs_ir :1478  graph.remove(list(to_remove))
                                                                   model remove_producers     PROVED
-   S5  ... :1497  for t_node in transpose_nodes: all perms present and equal (break on failure)
+   S5  ... :1501  for t_node in transpose_nodes: all perms present and equal (break on failure)
                                                                   model perm_loop            PROVED
-   S6  ... :1512  for node in elem_nodes: read-only check with break, collects the set
+   S6  ... :1516  for node in elem_nodes: read-only check with break, collects the set
          output_transposes                                        model check_loop/collect   PROVED
-   S7  ... :1540  for t_node in transpose_nodes: builds dict trans_in_map[t_out] = t_src
+   S7  ... :1544  for t_node in transpose_nodes: builds dict trans_in_map[t_out] = t_src
                                                                   model dict_of              PROVED
-   S8  ... :1546  for node in elem_nodes: rewire own inputs through trans_in_map, THEN
+   S8  ... :1550  for node in elem_nodes: rewire own inputs through trans_in_map, THEN
          _refresh_elementwise_output_shape(node), which reads the CURRENT shapes of the node's inputs -
          among them outputs of other members of elem_nodes        model site_refresh         REFUTED
          (order matters whenever one member feeds another member, which is the normal case because
           elem_nodes is a connected elementwise DAG; pass 0 of the same function does the same refresh
-          in graph order `for node in nodes: if node in elem_nodes` (:1640) - this site does not.)
-   S9  ... :1554  for t_out_node in output_transposes: replace_all_uses_with(t_out, t_in)
+          in graph order `for node in nodes: if node in elem_nodes` (:1644) - this site does not.)
+   S9  ... :1558  for t_out_node in output_transposes: replace_all_uses_with(t_out, t_in)
                                                                   model site_rauw            PROVED
-   S10 ... :1565  graph.remove(list(output_transposes))           model remove_producers     PROVED
-   S11 ... :1569  for t_node in transpose_nodes: graph.remove(t_node) when t_out has no consumer in the
+   S10 ... :1569  graph.remove(list(output_transposes))           model remove_producers     PROVED
+   S11 ... :1573  for t_node in transpose_nodes: graph.remove(t_node) when t_out has no consumer in the
          snapshot live_nodes taken BEFORE the loop               model site_remove_unused   PROVED
-   S12 ... :1615  for node in elem_nodes: read-only check with break      model check_loop   PROVED
-       ... :1635  for node in elem_nodes: node.replace_input_with(idx, t1_in) on the node's own inputs
+   S12 ... :1619  for node in elem_nodes: read-only check with break      model check_loop   PROVED
+       ... :1639  for node in elem_nodes: node.replace_input_with(idx, t1_in) on the node's own inputs
          (the refresh is done afterwards in graph order)          model site_rewire          PROVED
-   S13 inline_dropout_training_mode_constants_ir :2568  for not_node in del_not_nodes: reads uses only,
+   S13 inline_dropout_training_mode_constants_ir :2572  for not_node in del_not_nodes: reads uses only,
          appends to final_del_nodes, then graph.remove(final_del_nodes)
                                                                   model site_collect_remove  PROVED
    S14 plugins/plugin_system.py:952  FunctionPlugin._lower_and_call  for pname in call_param_names:
@@ -219,7 +220,7 @@ Qed.
 (* the side condition as the passes establish it: the olds are outputs of DISTINCT Transpose nodes
    (SSA: distinct values), every new is the output of an Add / elementwise node - a value has one
    producer and Transpose is not an elementwise op, so no new is an old.  Guaranteed by the matching
-   logic of _collect_add_transpose_forest (S1) and of the consumer scan at :1512-1529 (S9). *)
+   logic of _collect_add_transpose_forest (S1) and of the consumer scan at :1516-1533 (S9). *)
 Lemma rauw_side_condition l :
   NoDup (map fst l) -> (forall a b, In a l -> In b l -> snd a <> fst b) ->
   forall a b, In a l -> In b l -> a = b \/ rauw_compat a b.
